@@ -32,7 +32,7 @@ DESC = {
 }
 rows = {}
 for line in LOG.read_text().splitlines() if LOG.exists() else []:
-    m = re.match(r"(/tmp/seed[234]?_(C\d\d)/([A-H])) demo without patch: exit (\d+) ; with patch: exit (\d+) ; suite with patch: (.*)", line)
+    m = re.match(r"(/tmp/seed[2345]?_(C\d\d)/([A-J])) demo without patch: exit (\d+) ; with patch: exit (\d+) ; suite with patch: (.*)", line)
     if m:
         rows[f"{m.group(2)}-{m.group(3)}"] = (int(m.group(4)), int(m.group(5)), m.group(6), m.group(1))
 extra = json.loads(pathlib.Path("/root/work/seed_desc_extra.json").read_text()) if pathlib.Path("/root/work/seed_desc_extra.json").exists() else {}
@@ -41,7 +41,7 @@ def from_notes(src):
     """Description of a change from the agent's own notes: its heading and its 'needs to manifest' sentence."""
     txt = (src / "notes.md").read_text()
     head = next((l.strip("# ").strip() for l in txt.splitlines() if l.strip()), "")
-    head = re.sub(r"^(C\d\d\s*/\s*)?(Seeded )?[Cc]hange [A-H]\s*(\(property C\d\d\))?\s*[-:–—]*\s*", "", head)
+    head = re.sub(r"^(C\d\d\s*/\s*)?(Seeded )?[Cc]hange [A-J]\s*(\(property C\d\d\))?\s*[-:–—]*\s*", "", head)
     m = re.search(r"[Nn]eeds to manifest\W*(.{10,400}?)(?:\n\s*[-*]|\n\n|$)", txt, re.S)
     if not m:  # any sentence of the notes that speaks of manifesting / showing
         m = re.search(r"(?im)^[^\n]*\b(manifests?|shows? only|only shows?|needs)\b[^\n]*$", txt)
